@@ -417,6 +417,30 @@ def oracle_stacking(case, ctx):
             break
         done.append(b)
         discs += same(sut(f.predict), expect(done, int(b.index[-1])), "stacking_predict_after_update", "stacking")
+    if case.get("shared_meta") and not discs:
+        # a meta-regressor that really learns (least squares), and whose object the caller also
+        # hands to a second stack trained on another series: each stack's meta-model is its own
+        from sklearn.linear_model import LinearRegression
+
+        ctx.label("regressor_object_shared_by_two_stacks")
+        lr = LinearRegression()
+        A = StackingForecaster([("m%d" % i, RF(tag=400 + i, bias=0.1 * (i + 1))) for i in range(k)], final_regressor=lr)
+        r = sut(A.fit, y0.copy(), None, fh_obj(case, cutoff))
+        if isinstance(r, Raised):
+            return [D("composite_raised:fit:%s@%s" % (r.type, r.where), "stacking with LinearRegression: %s" % r.msg)]
+        cols = []
+        for i in range(k):
+            m = RF(tag=500 + i, bias=0.1 * (i + 1))
+            m.fit(y0.copy(), None, fh_obj(case, cutoff) if case["fh_mode"] == "abs" else gen.build_fh(steps, "list"))
+            cols.append(m.predict().to_numpy(dtype=float))
+        want = pd.Series(LinearRegression().fit(Xexp, yexp).predict(np.column_stack(cols)), index=[cutoff + h for h in steps])
+        discs += same(sut(A.predict), want, "stacking_predict_least_squares_meta", "stacking", tol=1e-8)
+        y1 = pd.Series(y0.to_numpy()[::-1] * 2.0 + 5.0, index=y0.index)
+        B = StackingForecaster([("m%d" % i, RF(tag=600 + i, bias=0.3 * (i + 1))) for i in range(k)], final_regressor=lr)
+        rb = sut(B.fit, y1, None, fh_obj(case, cutoff))
+        if isinstance(rb, Raised):
+            return discs + [D("composite_raised:fit:%s@%s" % (rb.type, rb.where), "second stack sharing the regressor object: %s" % rb.msg)]
+        discs += same(sut(A.predict), want, "stacking_predict_after_other_stack_was_fitted", "stacking", tol=1e-8)
     return discs
 
 
@@ -496,6 +520,7 @@ def stacking_cases(draw):
     if len(c["values"]) < total:
         c["values"] = c["values"] + [17.0 + i for i in range(total - len(c["values"]))]
     c["n_members"] = draw(st.integers(1, 3))
+    c["shared_meta"] = draw(st.booleans())
     if c["fh_mode"] == "abs":
         # the absolute time points must stay out-of-sample while the cutoff moves on
         keep, room = [], c["fh"][0] - 1
